@@ -18,7 +18,13 @@ pub const EXTRA: &[char] = &[
     '\u{1f3fd}', // skin tone modifier
     '🇯', '🇵',    // regional indicators
     'é', 'ß', '\t', '\u{a0}', '\u{3000}', '_', ':',
+    // rewritten by the normaliser without changing their UTF-8 length
+    '｣', '､', '･', '｡', '－', '―', '─', '–',
 ];
+
+/// Images of the alphabet under the KyTea full-width normaliser: what a model is matched
+/// against in normalising mode (the raw ASCII patterns never match there).
+pub const NORMALISED: &[char] = &['ａ', 'ｂ', '１', '２', 'Ｚ', '９', '。', '「', '」', '、', '・', '〜', 'ー', '−', '／', '（', '＿', '：', 'Ａ'];
 
 /// Symbols with a meaning in the two annotation formats.
 pub const META: &[char] = &[' ', '/', '\\', '-', '|'];
@@ -34,7 +40,11 @@ pub fn gen_char(rng: &mut Rng) -> char {
 /// A pattern for model n-grams, dictionary words and tag tokens (never contains NUL).
 pub fn gen_pattern(rng: &mut Rng, n: usize) -> String {
     (0..n)
-        .map(|_| if rng.chance(9, 10) { *rng.pick(CORE) } else { *rng.pick(EXTRA) })
+        .map(|_| match rng.below(20) {
+            0 | 1 => *rng.pick(EXTRA),
+            2..=4 => *rng.pick(NORMALISED),
+            _ => *rng.pick(CORE),
+        })
         .collect()
 }
 
@@ -45,13 +55,11 @@ pub fn gen_len(rng: &mut Rng) -> usize {
         4..=6 => rng.range(13, 48),
         // beyond the small sizes: across 64, 256 and (rarely) 1024
         7 => rng.range(49, 140),
-        8 => {
-            if rng.chance(1, 4) {
-                rng.range(900, 1100)
-            } else {
-                rng.range(200, 300)
-            }
-        }
+        8 => match rng.below(16) {
+            0 => rng.range(3000, 10000),
+            1..=4 => rng.range(900, 1100),
+            _ => rng.range(200, 300),
+        },
         _ => rng.range(1, 12),
     }
 }
